@@ -49,6 +49,11 @@ func c14CanonOp(v interface{}) interface{} {
 			return map[string]interface{}{"$not": c14CanonOp(x)}
 		case "$eq", "$ne", "$gt", "$gte", "$lt", "$lte", "$in":
 			return map[string]interface{}{k: Tag(x)}
+		case "$exists":
+			if b, ok := x.(bool); ok {
+				return map[string]interface{}{k: b}
+			}
+			return map[string]interface{}{"unk": "op:$exists"}
 		default:
 			return map[string]interface{}{"unk": "op:" + k}
 		}
